@@ -584,9 +584,10 @@ def cases(draw, flags=None, max_funcs=4, fuel=40, depth=5, ncalls=4):
     # memory, data
     if flags.has("memory") and draw(st.integers(0, 4)) > 0:
         desc["mem"] = {"min": draw(st.sampled_from([1, 1, 1, 2])), "max": draw(st.sampled_from([None, None, 2, 3]))}
-        if "limit_edges" in flags.extras and draw(st.integers(0, 3)) == 0:
+        if "limit_edges" in flags.extras and draw(st.integers(0, 2)) == 0:
             mn = draw(st.sampled_from([0, 0, 1, 2]))
-            desc["mem"] = {"min": mn, "max": draw(st.sampled_from([mn, mn, mn + 1, 65536, None]))}
+            mx = draw(st.integers(0, 9))
+            desc["mem"] = {"min": mn, "max": mn if mx < 6 else mn + 1 if mx < 8 else 65536 if mx < 9 else None}
         mod.mem = desc["mem"]
         if flags.has("data") and desc["mem"]["min"] > 0:
             for _ in range(draw(st.integers(0, 2))):
